@@ -204,6 +204,60 @@ Theorem C19_history_all_returned : forall i o, history_kind i = true -> spec i o
 Proof. exact history_returned. Qed.
 Print Assumptions C19_history_all_returned.
 
+(* ---------------------------------------------------------------- every destination receives every write *)
+(* The writer returned by Open / CombineWriteSyncers (zapcore.Lock over
+   zapcore.NewMultiWriteSyncer; wire kind 6) over ANY list of destinations, each answering
+   the Write with any (n, err): the calls made are exactly one Write per destination, in
+   order - whatever the other destinations answered (a rejected write (0, err), a short
+   write, an error after a full write ...); the returned error consists of the errors of
+   exactly the destinations that failed, in order; the returned count is the smallest
+   count any destination reported (io.Writer: n <= len). *)
+Theorem C19_write_reaches_every_destination : forall (ds : list (wbeh * nat)) (len : nat),
+  let r := comb_write ds len in
+  wr_evs r = map WWrite (map snd ds)
+  /\ (NoDup (map snd ds) -> forall d, In d (map snd ds) ->
+      wcount (is_wwrite d) (wr_evs r) = 1 /\ wcount (is_wsync d) (wr_evs r) = 0)
+  /\ wr_errs r = map snd (filter (fun p => w_err (fst p)) ds)
+  /\ (Forall (fun p => w_n (fst p) <= len) ds -> wr_n r = fold_right Nat.min len (map (fun p => w_n (fst p)) ds)).
+Proof. exact comb_write_all. Qed.
+Print Assumptions C19_write_reaches_every_destination.
+(* what the destinations answer has no influence on which destinations are written to *)
+Theorem C19_write_delivery_ignores_answers : forall (ds ds' : list (wbeh * nat)) (len len' : nat),
+  map snd ds = map snd ds' -> wr_evs (comb_write ds len) = wr_evs (comb_write ds' len').
+Proof. exact comb_write_answers_irrelevant. Qed.
+Print Assumptions C19_write_delivery_ignores_answers.
+Theorem C19_sync_reaches_every_destination : forall (ds : list (wbeh * nat)),
+  let r := comb_sync ds in
+  wr_evs r = map WSync (map snd ds)
+  /\ (NoDup (map snd ds) -> forall d, In d (map snd ds) ->
+      wcount (is_wsync d) (wr_evs r) = 1 /\ wcount (is_wwrite d) (wr_evs r) = 0)
+  /\ wr_errs r = map snd (filter (fun p => w_serr (fst p)) ds).
+Proof. exact comb_sync_all. Qed.
+Print Assumptions C19_sync_reaches_every_destination.
+(* One entry on the logger of Config.Build (ds1: OutputPaths, ds2: ErrorOutputPaths, any
+   answers): every output destination receives the entry once; every error-output
+   destination receives one line (Write + Sync) for the caller that cannot be found (cl)
+   and one naming every output destination that rejected the entry. *)
+Theorem C19_logger_entry_reaches_every_destination : forall (cl : bool) (len : nat) (ds1 ds2 : list (wbeh * nat)),
+  NoDup (map snd ds1 ++ map snd ds2) ->
+  let r := step_res 2 cl len 0 ds1 ds2 in
+  let k := b2n cl + b2n (existsb (fun p => w_err (fst p)) ds1) in
+  (forall d, In d (map snd ds1) -> wcount (is_wwrite d) (wr_evs r) = 1 /\ wcount (is_wsync d) (wr_evs r) = 0)
+  /\ (forall d, In d (map snd ds2) -> wcount (is_wwrite d) (wr_evs r) = k /\ wcount (is_wsync d) (wr_evs r) = k)
+  /\ wr_errs r = (if is_nil ds2 then [] else map snd (filter (fun p => w_err (fst p)) ds1)).
+Proof. exact logger_entry_all. Qed.
+Print Assumptions C19_logger_entry_reaches_every_destination.
+(* Histories (all three modes): after any sequence of Writes / entries and Syncs over nd
+   destinations, with any answers at every step, destination d < nd has received exactly
+   as many Writes as there were Write steps and as many Syncs as there were Sync steps -
+   no answer given earlier in the history, by any destination, loses a later write. *)
+Theorem C19_history_reaches_every_destination : forall (mode : Z) (cl : bool) (len : nat) (steps : list sx) (nd d : nat),
+  Forall (fun st => length (dec_behs (sx_nth st 1)) = nd) steps -> d < nd ->
+  wcount (is_wwrite d) (history_evs mode cl len steps) = length (filter is_write_step steps)
+  /\ wcount (is_wsync d) (history_evs mode cl len steps) = length (filter (fun st => negb (is_write_step st)) steps).
+Proof. exact history_delivery. Qed.
+Print Assumptions C19_history_reaches_every_destination.
+
 (* ---------------------------------------------------------------- wire *)
 (* the oracle the driver runs on the implementation's observations accepts the
    model's observation on every well-formed case of every kind *)
@@ -258,4 +312,20 @@ Example C19_example_mixed :
   /\ spec i (model i) = true
   /\ spec i (SL [SL [SZ 0; SZ 0; ks]; SL [SZ 0; SZ 3; ks]; blocked]) = false
   /\ spec i (SL [SL [SZ 0; SZ 0; ks]; SL [SZ 0; SZ 3; ks]]) = false.
+Proof. vm_compute. repeat split. Qed.
+
+(* the multi-destination writer: three destinations, the first rejects the write with
+   (0, err), the second takes 5 of 12 bytes without an error, the third fails after a full
+   write: all three are written to, the error names destinations 0 and 2, 0 bytes reported;
+   an observation in which the destinations after the rejecting one received nothing is
+   rejected by the oracle *)
+Example C19_example_multi :
+  let bs := SL [SL [SZ 0; SZ 1; SZ 0]; SL [SZ 5; SZ 0; SZ 1]; SL [SZ 12; SZ 1; SZ 0]] in
+  let i := SL [SZ 6; SZ 0; SZ 0; SZ 12; SZ 3; SZ 0; SL [SL [SZ 0; bs; SL []]; SL [SZ 1; bs; SL []]]] in
+  let one := SL [SZ 1; SZ 0] in let syn := SL [SZ 0; SZ 1] in let none := SL [SZ 0; SZ 0] in
+  wf i = true
+  /\ model i = SL [SL [SL [one; one; one]; SL []; SZ 0; SL [SZ 0; SZ 2]]; SL [SL [syn; syn; syn]; SL []; SZ 0; SL [SZ 1]]]
+  /\ spec i (model i) = true
+  /\ spec i (SL [SL [SL [one; none; none]; SL []; SZ 0; SL [SZ 0]]; SL [SL [syn; syn; syn]; SL []; SZ 0; SL [SZ 1]]]) = false
+  /\ spec i (SL [SL [SL [one; none; none]; SL []; SZ 0; SL [SZ 0; SZ 2]]; SL [SL [syn; syn; syn]; SL []; SZ 0; SL [SZ 1]]]) = false.
 Proof. vm_compute. repeat split. Qed.
